@@ -63,6 +63,7 @@ def _as_dict_folded(ctx, fn) -> Optional[List[str]]:
     probes = [("rfc7518.oct_key:OctKey", {"kty": "oct", "k": "S", "kid": "1"}, True),
               ("rfc7518.rsa_key:RSAKey", {"kty": "RSA", "n": "N", "e": "E", "d": "D", "p": "P", "q": "Q", "dp": "1", "dq": "2", "qi": "3", "kid": "2"}, True),
               ("rfc7518.rsa_key:RSAKey", {"kty": "RSA", "n": "N", "e": "E", "alg": "RS256"}, False),
+              ("rfc7518.rsa_key:RSAKey", {"kty": "RSA", "n": "N", "e": "E", "d": "GIVEN-AS-PARAMETER"}, False),  # a public-only key whose JWK view still carries a private member
               ("rfc7518.ec_key:ECKey", {"kty": "EC", "crv": "P-256", "x": "X", "y": "Y", "d": "D"}, True)]
     problems: List[str] = []
     F.start_trace()
